@@ -1,5 +1,6 @@
 import XalanModel.C06.ApiProofs
 import XalanModel.C06.VarStackProofs
+import XalanModel.C06.Scope
 /-!
 # C06 — a reused transformer behaves like a fresh one
 
@@ -60,6 +61,40 @@ theorem sticky_untouched (s : State) :
   fun m hm => kept_of_checks (by decide +kernel) s m hm
 
 example : 3 ∈ keptIds ∧ memberNames.getD 3 "" = "T.m_params" := by decide
+
+/-- **guard_sites_all_guarded.** Members that `reset()` does not touch and the interpreter restores with scope
+guards (role `guarded`: the four containers of the execution context's shared `NodeSorter`): at *every* site the
+translator finds that mutates one of them — member functions of the owner, users of an accessor handing out a
+mutable reference (`getSortKeys()` in `ElemForEach::sortChildren`), constructions of a helper class that reaches it
+through its owner — a `CollectionClearGuard` on it is declared before the first mutation, in the same block; each
+guarded member has at least one such site; every user of the scratch QName assigns it before reading; and no RAII
+helper class of the execution contexts touches a member that neither `reset()` nor a guard restores. -/
+theorem guard_sites_all_guarded :
+    guardSites.all (fun x => x.2.2) = true ∧
+    guardedIds.all (fun m => guardSites.any (fun x => x.1 == m)) = true ∧
+    scratchSites.all (fun x => x.2) = true ∧ guardClassProblems = [] := by decide
+
+/-- **scope_guard_restores.** Semantics of a C++ block holding `CollectionClearGuard`s, with exceptions
+(`XalanModel/C06/Scope.lean`): if every mutation of member `m` lies inside a scope that guards `m`, then after the
+code ran — to completion or to an exception at *any* point — `m` is empty again. -/
+theorem scope_guard_restores (p : Prog) (m : Nat) (hg : p.Guarded m = true) (s : State) (hs : s m = .seq []) :
+    (p.exec s).1 m = .seq [] :=
+  Prog.guarded_restores p m hg s hs
+
+example : (Prog.scope [7] (.seq (.mutate 7 (.seq [1])) (.seq .throw (.mutate 7 (.seq [2]))))).Guarded 7 = true ∧
+    ((Prog.scope [7] (.seq (.mutate 7 (.seq [1])) (.seq .throw (.mutate 7 (.seq [2]))))).exec freshState).2 = .thrown ∧
+    ¬ (Prog.seq (.mutate 7 (.seq [1])) (.seq .throw (.scope [7] (.mutate 7 (.seq []))))).Guarded 7 = true := by
+  decide
+
+/-- **guarded_members_stay_fresh.** Over every API history, the guarded members keep their freshly-constructed
+value at every point between calls: set-up and reset never write them (closed check over the statement tables) and
+the interpreter leaves them as it found them on every exit (`scope_guard_restores` + `guard_sites_all_guarded`,
+which is why `havoc` does not treat them as volatile). -/
+theorem guarded_members_stay_fresh (ops : List Op) :
+    ∀ m ∈ guardedIds, (runOps Tx.init ops).1.mem m = freshState m :=
+  fun m hm => runOps_guarded (by decide +kernel) ops Tx.init m hm
+
+example : guardedIds.length = 4 := by decide
 
 /-- Full strength ("*every* non-sticky member is restored") is false on the tree as found: the four
 `XalanObjectStackCache` members keep the objects that were checked out when the transformation
